@@ -326,6 +326,39 @@ def run(check, repo: Repo) -> None:
     check.decide(ok, "C20-R1", "BaseInterval.__call__: integer data is converted to floating point BEFORE the first arithmetic step", f"first arithmetic at line {first.lineno}",
                  mod.line(first), fail_detail=f"`{unparse(first)[:60]}` runs on the caller's dtype (the float cast comes afterwards or not at all): for unsigned-integer data and a Python-int "
                                               f"lower limit the subtraction wraps around below vmin — ManualInterval(10, 200) sends the uint8 value 5 to 1.0 instead of 0: not monotone")
+    # the LIMITS as well: get_limits() of data-derived intervals returns NumPy scalars of the data's dtype (np.min of an int16 array is np.int16), and
+    # `vmax − vmin` between two such scalars wraps in that dtype (int16 data spanning [−20000, 20000]: span −25536).  Every limit-to-limit arithmetic step
+    # must therefore run on limits that were converted to floating point first.
+    binv = next((f for f in bi.body if isinstance(f, ast.FunctionDef) and f.name == "inverse"), None)
+    n_span = 0
+    for label_, f_ in (("__call__", bcall), ("inverse", binv)):
+        if f_ is None:
+            raise AnalysisError("BaseInterval.inverse not found")
+        lim = set()
+        for n in ast.walk(f_):
+            if isinstance(n, ast.Assign) and isinstance(n.targets[0], ast.Tuple) and isinstance(n.value, ast.Call) and isinstance(n.value.func, ast.Attribute) \
+                    and n.value.func.attr == "get_limits":
+                lim |= {t.id for t in n.targets[0].elts if isinstance(t, ast.Name)}
+        if len(lim) != 2:
+            raise AnalysisError(f"BaseInterval.{label_}: `vmin, vmax = self.get_limits(…)` not found")
+        floated = {}
+        for n in ast.walk(f_):
+            if isinstance(n, ast.Assign):
+                tg = n.targets[0].elts if isinstance(n.targets[0], ast.Tuple) else [n.targets[0]]
+                vs = n.value.elts if isinstance(n.value, ast.Tuple) and len(n.value.elts) == len(tg) else [n.value] * len(tg)
+                for t_, v_ in zip(tg, vs):
+                    if isinstance(t_, ast.Name) and t_.id in lim and isinstance(v_, ast.Call) and (call_name(v_) or "") in ("float", "np.float64", "np.double") \
+                            and v_.args and isinstance(v_.args[0], ast.Name) and v_.args[0].id == t_.id:
+                        floated[t_.id] = min(floated.get(t_.id, 10 ** 9), n.lineno)
+        for n in ast.walk(f_):
+            if isinstance(n, ast.BinOp) and isinstance(n.op, (ast.Sub, ast.Add, ast.Mult)) and isinstance(n.left, ast.Name) and isinstance(n.right, ast.Name) \
+                    and {n.left.id, n.right.id} <= lim and n.left.id != n.right.id:
+                n_span += 1
+                ok = all(nm in floated and floated[nm] < n.lineno for nm in (n.left.id, n.right.id))
+                check.decide(ok, "C20-R1", f"BaseInterval.{label_}: `{unparse(n)}` is computed on limits that were converted to floating point", "", mod.line(n), definite=True,
+                             fail_detail=f"`{unparse(n)}` combines the two limits as returned by get_limits(): for signed narrow-integer data they are NumPy scalars of the data's dtype "
+                                         f"and the span wraps around (ManualInterval() on int16 [−20000, 0, 20000] returns [0, 0, 0]: the upper limit maps to 0, not 1)")
+    check.floor("limit-to-limit arithmetic steps", n_span, 3)
     cn_cls = classes["CustomNormalization"]
     ccall = next(f for f in cn_cls.body if isinstance(f, ast.FunctionDef) and f.name == "__call__")
     body = [s for s in ccall.body if not (isinstance(s, ast.Expr) and isinstance(s.value, ast.Constant))]
@@ -473,32 +506,79 @@ def run(check, repo: Repo) -> None:
                                          f"still see ±inf): one inf pixel makes the limits infinite and every finite value NaN")
     check.floor("data-derived limit reductions", n_red, 5)
     sl = next(f for f in cn_cls.body if isinstance(f, ast.FunctionDef) and f.name == "_set_limits")
-    t = unparse(sl)
-    ok = "self.vmin, self.vmax = self.interval.get_limits(data)" in t and t.count("self.interval = ManualInterval(self.vmin, self.vmax)") == 2
-    check.decide(ok, "C20-R3", "CustomNormalization._set_limits freezes the limits in a ManualInterval (vmin→0, vmax→1 for later calls)", "", mod.line(sl),
-                 fail_detail="_set_limits does not freeze (vmin, vmax) from get_limits into ManualInterval")
-
-    # the frozen interval is built from the values that went THROUGH the vmin / vmax setters of matplotlib's Normalize (which turn NumPy scalars into Python
-    # numbers), not from the raw result of get_limits(): a raw np.int8 / np.int16 limit makes `vmax − vmin` wrap in the data's own dtype
+    # freezing: after _set_limits the interval is a ManualInterval(lower, upper) of the limits that get_limits(data) returned — directly, or through
+    # self.vmin / self.vmax that were assigned from them — in this order (or the constants (0, 1) for boolean data).  Since BaseInterval converts the limits
+    # to float itself (D27), it no longer matters whether the raw NumPy scalars or the sanitised attributes are handed over.
     from ..core.repo import TupleItem
+
+    def _limit_role(e_):
+        """'lo' / 'hi' / ('const', v) / None for an argument of ManualInterval"""
+        if isinstance(e_, ast.Constant) and isinstance(e_.value, (int, float)):
+            return ("const", float(e_.value))
+        if isinstance(e_, ast.Attribute) and dotted(e_) in ("self.vmin", "self.vmax"):
+            # self.vmin / self.vmax: what was last assigned to them in this method
+            roles = set()
+            for n in ast.walk(sl):
+                if isinstance(n, ast.Assign):
+                    tg = n.targets[0].elts if isinstance(n.targets[0], ast.Tuple) else [n.targets[0]]
+                    if isinstance(n.value, ast.Tuple) and len(n.value.elts) == len(tg):
+                        pairs = list(zip(tg, n.value.elts))
+                    elif isinstance(n.targets[0], ast.Tuple) and isinstance(n.value, ast.Call) and isinstance(n.value.func, ast.Attribute) and n.value.func.attr == "get_limits":
+                        pairs = [(t_, ("lo", "hi")[k]) for k, t_ in enumerate(tg[:2])]
+                    else:
+                        pairs = [(t_, n.value) for t_ in tg] if len(tg) == 1 else []
+                    for t_, v_ in pairs:
+                        if dotted(t_) == dotted(e_):
+                            roles.add(v_ if isinstance(v_, (str, tuple)) else _limit_role(v_))
+            roles.discard(None)
+            kinds = {r if isinstance(r, str) else r[0] for r in roles}
+            if kinds <= {"lo", "const"} and "lo" in kinds:
+                return "lo"
+            if kinds <= {"hi", "const"} and "hi" in kinds:
+                return "hi"
+            return next(iter(roles)) if len(roles) == 1 else None
+        if isinstance(e_, ast.Name):
+            roles = set()
+            for d_ in definitions(sl, e_.id):
+                if isinstance(d_, TupleItem) and isinstance(d_.value, ast.Call) and isinstance(d_.value.func, ast.Attribute) and d_.value.func.attr == "get_limits":
+                    roles.add(("lo", "hi")[d_.index] if d_.index in (0, 1) else None)
+                elif isinstance(d_, ast.AST):
+                    roles.add(_limit_role(d_))
+                else:
+                    roles.add(None)
+            if None in roles:
+                return None
+            kinds = {r if isinstance(r, str) else r[0] for r in roles}
+            if kinds <= {"lo", "const"} and "lo" in kinds:
+                return "lo"
+            if kinds <= {"hi", "const"} and "hi" in kinds:
+                return "hi"
+            return next(iter(roles)) if len(roles) == 1 else None
+        return None
     n_frz = 0
-    for c in calls_in(sl):
-        if call_name(c) != "ManualInterval" or len(c.args) != 2:
+    stores_iv = [n for n in ast.walk(sl) if isinstance(n, ast.Assign) and dotted(n.targets[0]) == "self.interval"]
+    for n in stores_iv:
+        c = n.value
+        if not (isinstance(c, ast.Call) and call_name(c) == "ManualInterval"):
+            check.violated("C20-R3", "CustomNormalization._set_limits freezes the limits in a ManualInterval (vmin→0, vmax→1 for later calls)",
+                           f"`{unparse(n)[:60]}` installs something else than a ManualInterval", mod.line(n))
             continue
+        args = list(c.args) + [k.value for k in c.keywords if k.arg in ("vmin", "vmax")]
+        if len(args) != 2:
+            raise AnalysisError(f"_set_limits: `{unparse(c)[:60]}` does not pass two limits")
+        if c.keywords:
+            kw = {k.arg: k.value for k in c.keywords}
+            args = [kw.get("vmin", c.args[0] if c.args else None), kw.get("vmax", c.args[1] if len(c.args) > 1 else None)]
+        r0, r1 = _limit_role(args[0]), _limit_role(args[1])
+        if r0 is None or r1 is None:
+            raise AnalysisError(f"_set_limits: the arguments of `{unparse(c)[:60]}` were not traced to get_limits() / constants")
         n_frz += 1
-        raw = []
-        for a in c.args:
-            if isinstance(a, ast.Name):
-                for d_ in definitions(sl, a.id):
-                    v_ = d_.value if isinstance(d_, TupleItem) else d_
-                    if isinstance(v_, ast.AST) and any(isinstance(x, ast.Call) and isinstance(x.func, ast.Attribute) and x.func.attr == "get_limits" for x in ast.walk(v_)):
-                        raw.append(a.id)
-            elif any(isinstance(x, ast.Call) and isinstance(x.func, ast.Attribute) and x.func.attr == "get_limits" for x in ast.walk(a)):
-                raw.append(unparse(a)[:30])
-        check.decide(not raw, "C20-R3", "CustomNormalization._set_limits: the frozen ManualInterval receives the sanitised self.vmin / self.vmax, not the raw result of get_limits()",
-                     unparse(c)[:60], mod.line(c), definite=True,
-                     fail_detail=f"`{unparse(c)[:60]}`: {raw} come straight from get_limits(data) — for signed narrow-integer data these are NumPy scalars of the data's dtype, and the "
-                                 f"interval's `vmax − vmin` wraps around (int16 data spanning [−20000, 20000]: span −25536, every pixel maps to 0)")
+        ok = (r0, r1) == ("lo", "hi") or (isinstance(r0, tuple) and isinstance(r1, tuple) and r0[1] < r1[1])
+        check.decide(ok, "C20-R3", "CustomNormalization._set_limits freezes the limits in a ManualInterval (vmin→0, vmax→1 for later calls)", f"{unparse(c)[:50]} = ({r0}, {r1})",
+                     mod.line(c), definite=True, fail_detail=f"`{unparse(c)[:60]}` receives ({r0}, {r1}): the frozen interval is not (lower limit, upper limit) of get_limits(data)")
+    lim_calls = [c for c in calls_in(sl) if isinstance(c.func, ast.Attribute) and c.func.attr == "get_limits"]
+    check.decide(bool(lim_calls) and all(c.args and unparse(c.args[0]) == "data" for c in lim_calls), "C20-R3", "CustomNormalization._set_limits takes the limits from get_limits(data)", "",
+                 mod.line(sl), fail_detail="get_limits is not evaluated on the data handed to _set_limits")
     check.floor("_set_limits: frozen intervals", n_frz, 1)
 
     # ---- R4b derived accessors of the (mutable) stretch/interval dataclasses are recomputed on every access ----------------------------------
@@ -605,3 +685,4 @@ MANIFEST = {
     "technique": "pipeline extraction + symbolic evaluation with inverse-function rewrites + sign/monotonicity table (AST)",
 }
 MANIFEST["text"] += ' Also: integer data is converted to floating point before the first arithmetic step and nothing is written before the working copy exists; log1p/expm1 are primitives of the symbolic evaluator; every CustomNormalization built field-by-field from a resolved configuration receives field K under keyword K (R6).'
+MANIFEST["text"] += " R1 also: every limit-to-limit arithmetic step of BaseInterval (vmax − vmin in __call__ and inverse) runs on limits converted to float first (found D27). R3 is now semantic: the frozen ManualInterval receives (lower, upper) of get_limits(data), directly or through self.vmin/self.vmax, in this order."
